@@ -38,16 +38,48 @@ def trees(maxn, maxdepth):
     return out
 
 
-CFG = ('SPECIFICATION Spec\nINVARIANT Closed\nINVARIANT RowsAreChildrenOfExpanded\nINVARIANT OneLinkEach\n'
+CFG = ('SPECIFICATION Spec\nINVARIANT Closed\nINVARIANT RowsAreChildrenOfExpanded\nINVARIANT RowsOnce\nINVARIANT OneLinkEach\n'
        'INVARIANT CodecRoundTrip\nINVARIANT CodecValid\nINVARIANT Export\nPROPERTY ToggleOnly\nCHECK_DEADLOCK FALSE\n')
 
 _TREES = None
 
+# option records of the tag (DTTree.Opt); 'sorted' tells the harness to write sort=rank
+OPTS = [
+    dict(),
+    dict(ac=True),
+    dict(leaves=True),
+    dict(ac=True, leaves=True),
+    dict(hf=True),
+    dict(sorted=True, rev=True),
+    dict(single=True),
+    dict(ac=True, hf=True, rev=True),
+    dict(single=True, ac=True),
+    dict(leaves=True, hf=True, sorted=True),
+    dict(rev=True),
+]
+
+
+def mkopt(o, n, rng):
+    opt = dict(tree.DEFAULT_OPT)
+    opt.update(o)
+    rank = list(range(1, n + 1))
+    if opt['sorted']:
+        rng.shuffle(rank)
+    opt['rank'] = rank
+    return opt
+
+
+def apply_rank(nodes, opt):
+    for nd, r in zip(nodes, opt['rank']):
+        nd.rank = r
+
 
 def lockstep(item):
     tid, recs = item
-    parent = _TREES[tid - 1]
+    parent, opt = _TREES[tid - 1]
     nodes = tree.build(parent)
+    apply_rank(nodes, opt)
+    src = tree.source(opt, variant=tid)
     num = {n.nid: i + 1 for i, n in enumerate(nodes)}
     real = {}          # frozenset(exp) -> (cookie, links)
     todo = list(recs)
@@ -58,30 +90,30 @@ def lockstep(item):
         progress = False
         rest = []
         for r in todo:
-            src = frozenset(r['from'])
-            if r['op'] != 'init' and src not in real:
+            src_ = frozenset(r['from'])
+            if r['op'] != 'init' and src_ not in real:
                 rest.append(r)
                 continue
             progress = True
             try:
                 if r['op'] == 'init':
-                    o = tree.request(nodes)
+                    o = tree.request(nodes, src=src)
                 elif r['op'] == 'click':
-                    cookie, links = real[src]
+                    cookie, links = real[src_]
                     nid = nodes[r['x'] - 1].nid
                     if nid not in links:
                         bad.append({'step': r, 'why': 'node %s carries no link in the source state' % nid})
                         continue
-                    o = tree.request(nodes, cookie, links[nid])
+                    o = tree.request(nodes, cookie, links[nid], src=src)
                 elif r['op'] == 'reload':
-                    o = tree.request(nodes, real[src][0])
+                    o = tree.request(nodes, real[src_][0], src=src)
                 else:
-                    o = tree.request(nodes, real[src][0], special=r['op'])
+                    o = tree.request(nodes, real[src_][0], special=r['op'], src=src)
             except Exception as e:  # noqa
                 bad.append({'step': r, 'why': 'exception %s: %s' % (type(e).__name__, str(e)[:100])})
                 continue
             done += 1
-            rows = [num.get(x, x) for x in o['rows']]
+            rows = [[k, num.get(x, x)] for k, x in o['items']]
             links = sorted([num.get(k, k), 'c' if v[0] == 'tree-c' else 'e'] for k, v in o['links'].items())
             state = sorted(num.get(x, x) for x in o['state'] if x != nodes[0].nid)
             why = []
@@ -89,7 +121,7 @@ def lockstep(item):
                 why.append('rows %s expected %s' % (rows, r['rows']))
             if links != sorted(r['links']):
                 why.append('links %s expected %s' % (links, sorted(r['links'])))
-            if state != sorted(r['exp']):
+            if not opt['single'] and state != sorted(r['exp']):
                 why.append('cookie state %s expected %s' % (state, sorted(r['exp'])))
             if o['dup']:
                 why.append('more than one link for %s' % o['dup'])
@@ -99,7 +131,7 @@ def lockstep(item):
             if dst not in real and not why:
                 real[dst] = (o['cookie'], o['links'])
         todo = rest
-    return {'tid': tid, 'parent': parent, 'done': done, 'bad': bad[:5], 'unreached': len(todo)}
+    return {'tid': tid, 'parent': parent, 'opt': opt, 'source': src, 'done': done, 'bad': bad[:5], 'unreached': len(todo)}
 
 
 IDS = ['id', 'a-long-identifier-with-many-characters-%d', 'é%d', 'Ωμέγα-%d', '日本語%d', 'x%d y', "q%d'<&>", 'n%d']
@@ -134,10 +166,13 @@ def random_history(seed):
     nodes = tree.build(par2, ids)
     num = {nd.nid: i + 1 for i, nd in enumerate(nodes)}
     steps = []
-    o = tree.request(nodes)
+    opt = mkopt(rng.choice(OPTS), n, rng)
+    apply_rank(nodes, opt)
+    src = tree.source(opt, variant=seed)
+    o = tree.request(nodes, src=src)
 
     def rec(op, x, o):
-        steps.append({'op': op, 'x': x, 'rows': [num[r] for r in o['rows']],
+        steps.append({'op': op, 'x': x, 'rows': [[k, num[r]] for k, r in o['items']],
                       'state': sorted(num[s] for s in o['state'] if s != nodes[0].nid),
                       'links': sorted([num[k], 'c' if v[0] == 'tree-c' else 'e'] for k, v in o['links'].items())})
     rec('init', 0, o)
@@ -148,22 +183,22 @@ def random_history(seed):
             c = 0.0
         try:
             if c < 0.06:
-                o = tree.request(nodes, o['cookie'], special='expand_all')
+                o = tree.request(nodes, o['cookie'], special='expand_all', src=src)
                 rec('expand_all', 0, o)
             elif c < 0.1:
-                o = tree.request(nodes, o['cookie'], special='collapse_all')
+                o = tree.request(nodes, o['cookie'], special='collapse_all', src=src)
                 rec('collapse_all', 0, o)
             elif c < 0.15 or not o['links']:
-                o = tree.request(nodes, o['cookie'])
+                o = tree.request(nodes, o['cookie'], src=src)
                 rec('reload', 0, o)
             else:
                 nid = rng.choice(sorted(o['links']))
-                o = tree.request(nodes, o['cookie'], o['links'][nid])
+                o = tree.request(nodes, o['cookie'], o['links'][nid], src=src)
                 rec('click', num[nid], o)
         except Exception as e:  # noqa
             err = '%s: %s' % (type(e).__name__, str(e)[:100])
             break
-    return {'n': n, 'parent': par2, 'steps': steps, 'err': err, 'ids': style, 'seed': seed}
+    return {'n': n, 'parent': par2, 'opt': opt, 'source': src, 'steps': steps, 'err': err, 'ids': style, 'seed': seed}
 
 
 def codec_case(seed):
@@ -194,8 +229,14 @@ def main(tier):
     global _TREES
     V = common.Verdicts(PID, tier)
     rng = random.Random(common.seed())
-    _TREES = trees(6 if tier == 'quick' else 7, 4)
-    cases = [{'n': len(p), 'parent': p} for p in _TREES]
+    shapes = trees(6 if tier == 'quick' else 7, 4)
+    _TREES = []
+    for i, p in enumerate(shapes):
+        # every option record on the small trees, three of them (rotating) on the larger ones
+        os_ = OPTS if len(p) <= (5 if tier == 'quick' else 6) else [OPTS[0]] + [OPTS[1 + (i + j) % (len(OPTS) - 1)] for j in range(3)]
+        for o in os_:
+            _TREES.append((p, mkopt(o, len(p), rng)))
+    cases = [{'n': len(p), 'parent': p, 'opt': {k: v for k, v in o.items() if k != 'sorted'}} for p, o in _TREES]
     out = []
     res = tlc.run('DTTree', CFG, files={'cases.json': json.dumps(cases)}, on_print=out.append, keep_prints=False,
                   timeout=3000)
@@ -217,7 +258,7 @@ def main(tier):
         if r['unreached']:
             V.count('transitions_unreached', r['unreached'])
         for b in r['bad']:
-            V.violation({'kind': 'transition', 'tree_parent': r['parent'], 'op': b['step']['op'], 'node': b['step']['x'],
+            V.violation({'kind': 'transition', 'tree_parent': r['parent'], 'options': {k: v for k, v in r['opt'].items() if v and k != 'rank'}, 'source': r['source'], 'op': b['step']['op'], 'node': b['step']['x'],
                          'from': b['step']['from'], 'why': b['why']})
     # random larger trees / histories, validated by TLC
     hs = common.pool_map(random_history, [common.seed() * 100003 + i for i in range(150 if tier == 'quick' else 1500)],
@@ -233,7 +274,7 @@ def main(tier):
         traces.append(h)
     ocfg = 'INIT OInit\nNEXT ONext\nINVARIANT Verdict\nCHECK_DEADLOCK FALSE\n'
     r2 = tlc.run('ObsTree', ocfg, files={'cases.json': json.dumps(
-        [{'n': h['n'], 'parent': h['parent'], 'steps': h['steps']} for h in traces])}, workers=8, timeout=3000)
+        [{'n': h['n'], 'parent': h['parent'], 'opt': {k: v for k, v in h['opt'].items() if k != 'sorted'}, 'steps': h['steps']} for h in traces])}, workers=8, timeout=3000)
     states += r2.distinct
     trans += r2.generated
     verd = {v['tid'] - 1: v for v in r2.prints if 'accepted' in v}
@@ -245,7 +286,7 @@ def main(tier):
             V.count('histories_accepted')
         else:
             st = h['steps'][min(v['at'], len(h['steps'])) - 1]
-            V.violation({'kind': 'history', 'seed': h['seed'], 'ids': h['ids'], 'parent': h['parent'], 'rejected_at': v['at'],
+            V.violation({'kind': 'history', 'seed': h['seed'], 'ids': h['ids'], 'parent': h['parent'], 'source': h['source'], 'rejected_at': v['at'],
                          'bad': v['bad'], 'step': st, 'clicks': [(s['op'], s['x']) for s in h['steps'][:v['at']]]})
     # codec
     covered = set()
@@ -260,15 +301,16 @@ def main(tier):
             V.violation({'kind': 'codec', 'compressed_len': c['n'], 'why': c['err'], 'seed': c['seed']})
     cov = {'states': states, 'transitions': trans,
            'traces_validated_against_impl': ntrans + V.counters.get('histories_accepted', 0),
-           'trees': len(_TREES), 'model_transitions_exported': len(out), 'exhaustive': True,
+           'trees': len(shapes), 'tree_option_cases': len(_TREES), 'model_transitions_exported': len(out), 'exhaustive': True,
            'compressed_lengths_covered': [min(covered), max(covered), len(covered)] if covered else [],
            'rule': 'all ordered rooted trees up to the tier size (5 quick / 7 thorough nodes, depth <= 4): every transition '
                    'of the reachable state graph (click on every link, expand_all, collapse_all, reload) driven through '
                    'the real tag by cookie and generated link; random trees up to 40 nodes with long / non-ASCII ids and '
                    'random histories up to 40 validated by TLC; codec round trips over random states',
-           'samples': [out[len(out) // 2], {'tree': _TREES[-1]}]}
+           'samples': [out[len(out) // 2], {'tree': _TREES[-1][0], 'source': tree.source(_TREES[-1][1])}],
+           'option_records': OPTS}
     return V.finish(cov, assumptions=['zlib, base64 and json are trusted primitives; ids are unique strings',
-                                      'the tag is used with its default options (tpValues / tpId / tpURL)'])
+                                      'options covered: assume_children, leaves, header, footer, single, sort, reverse (modelled), branches / branches_expr / id / nowrap / prefix / urlparam (spellings the model does not distinguish)'])
 
 
 def replay_file(path):
